@@ -351,6 +351,12 @@ func indexSafe(fn *ssa.Function, b *ssa.BasicBlock, x, idx ssa.Value, sortCB boo
 	if d := idxBelowLen(b, idx, x); d >= 0 && nonNeg(idx, 0, map[ssa.Value]bool{}) {
 		return "index tested to be below the length"
 	}
+	// the position a search found in the same value (tested against -1): the needle is not empty, so it is below the length
+	if call, ok := idx.(*ssa.Call); ok {
+		if w := indexSearchBound(idx, x, b); w != "" && searchNeedleNonEmpty(call) {
+			return w
+		}
+	}
 	// i - k for the index i of the range loop over the same container, under i != 0 / i > 0 / i >= k
 	{
 		li := linOf(idx, 0)
@@ -883,4 +889,18 @@ func callersGuard(fn *ssa.Function, prm *ssa.Parameter, bound ssa.Value) bool {
 		}
 	}
 	return n > 0
+}
+
+// searchNeedleNonEmpty: the search is for a byte, a rune, or a non-empty constant string / set of characters.
+func searchNeedleNonEmpty(call *ssa.Call) bool {
+	name := calleeFullName(&call.Call)
+	if strings.HasSuffix(name, "IndexByte") || strings.HasSuffix(name, "IndexRune") {
+		return true
+	}
+	if len(call.Call.Args) > 1 {
+		if s, ok := constString(call.Call.Args[1]); ok && len(s) > 0 {
+			return true
+		}
+	}
+	return false
 }
